@@ -301,8 +301,23 @@ func (x *Exec) model(st *State, fr *Frame, in *ssa.Call, callee *ssa.Function, a
 		return x.appendUnknown(st, args[0], rt, 1, 400), true
 	case name == "sort.SearchFloat64s":
 		used()
+		// binary search keeps f(i-1) false and f(j) true for ANY predicate f, so the
+		// result r satisfies (r == n or a[r] >= x) and (r == 0 or not a[r-1] >= x),
+		// sorted input or not, NaN or not
 		r := x.fresh(st, rt, "sr")
 		x.assume(st, And("(<= 0 "+r.S+")", "(<= "+r.S+" (s_len "+a(0)+"))"))
+		ft := types.Typ[types.Float64]
+		at := func(i string) string {
+			return x.heapLoad(st, ft, "(s_reg "+a(0)+")", "(+ (s_off "+a(0)+") "+i+")")
+		}
+		ge := func(u, v string) string {
+			if x.fp() {
+				return "(fp.geq " + u + " " + v + ")"
+			}
+			return "(>= " + u + " " + v + ")"
+		}
+		x.assume(st, Imp("(< "+r.S+" (s_len "+a(0)+"))", ge(at(r.S), a(1))))
+		x.assume(st, Imp("(> "+r.S+" 0)", Not(ge(at("(- "+r.S+" 1)"), a(1)))))
 		return r, true
 	case name == "sort.Slice", name == "sort.SliceStable", name == "sort.Float64s", name == "sort.Ints", name == "sort.Strings":
 		used()
